@@ -6,13 +6,14 @@ CONSTANTS
   NP = 2
   Names = {"a", "b"}
   Vals = {1, 2}
-  Acts = {"CreateGroup", "CreateObject", "AddData", "CreateWithUid", "Rename", "SetFlag", "SetVal", "Move", "MoveSame", "AddToGroup", "AddDataFails", "StripOpt", "SaveAs", "Helper", "RemoveFromGroup", "RemovePG", "RemoveViaWorkspace", "RemoveViaParent", "DropRef", "Collect", "Purge", "LookupDead", "Copy", "Close", "Open"}
+  Acts = {"CreateGroup", "CreateObject", "AddData", "CreateWithUid", "Rename", "SetFlag", "SetVal", "Move", "MoveSame", "AddToGroup", "AddDataFails", "StripOpt", "SaveAs", "Helper", "Copy2", "Remove2", "ScrubData", "CreateDeferred", "RemoveFromGroup", "RemovePG", "RemoveViaWorkspace", "RemoveViaParent", "DropRef", "Collect", "Purge", "LookupDead", "Copy", "Close", "Open"}
   Deviations = {}
   MaxDepth = 6
 CONSTRAINT DepthBound
 VIEW vw
 INVARIANT TypeOK
 INVARIANT DirtyOnlyInRW
+INVARIANT W2WellFormed
 INVARIANT ReopenEqualsLive
 INVARIANT LinksToNodes
 INVARIANT OneParent
@@ -24,4 +25,5 @@ INVARIANT NoOrphansWhenClosed
 PROPERTY Footprint
 PROPERTY FrozenFile
 PROPERTY OptStaysStripped
+PROPERTY FreshOnlyWhenTaken
 CHECK_DEADLOCK FALSE
